@@ -69,6 +69,20 @@ func runC12(p *core.Prog, r *core.Report, tier string) {
 	cfgField := core.FieldID{Owner: relayRel + ".Service", Name: "executionConfig"}
 	cfgMu := core.FieldID{Owner: relayRel + ".Service", Name: "executionConfigMu"}
 
+	// (n) the configuration is refreshed by its own job: fetchExecutionConfig is called from New (first fetch) and
+	// handed to the scheduler — a call on the registration or auction path makes that path wait for the configuration
+	// source and lets a slow or failing source delay what must keep answering
+	if fe := p.Func(relayRel, "Service", "fetchExecutionConfig"); fe != nil {
+		nCallers := 0
+		for _, f := range fns {
+			for _, ci := range core.Calls(f, func(c *ssa.CallCommon) bool { return c.StaticCallee() == fe }) {
+				nCallers++
+				r.Check(outermost(f).Name() == "New", "C12.n", core.FnKey(f)+"|refresh-only-from-its-job", p.Pos(ci.Pos()), "the configuration is fetched directly only at construction", "fetchExecutionConfig is called from "+f.Name()+": the caller now waits for the configuration source (and holds what it holds meanwhile) although the refresh has a job of its own")
+			}
+		}
+		r.Floor("C12.n direct calls of fetchExecutionConfig", nCallers, 1)
+	}
+
 	// (a),(b) pairing + re-entrancy, package functions (thorough: whole repository, out-of-scope hits observed only)
 	lockFns, lockOps := 0, 0
 	// … and the shared helpers the relay calls while answering (util: the builder client cache and its package-level mutex)
